@@ -47,6 +47,25 @@ class Gate:
         return '%s %s @%s:L%s' % (self.kind, self.what, self.fn.split('::')[-1], self.line)
 
 
+def _array_literal_of(fd, op, depth=0):
+    """operands of the array literal an operand refers to (through borrows, copies and unsizing casts), or None"""
+    if op is None or op.get('k') not in ('copy', 'move') or depth > 8:
+        return None
+    if any(q['k'] != 'deref' for q in op['pl'].get('p', [])):
+        return None
+    ds = [d for d in fd.defs.get(op['pl']['l'], []) if not d[2].get('dst', {}).get('p')]
+    if len(ds) != 1 or ds[0][0] != 'assign':
+        return None
+    rv = ds[0][2]['rv']
+    if rv['k'] == 'agg' and rv.get('ak') == 'array':
+        return rv['ops']
+    if rv['k'] in ('use', 'cast') and rv['op']['k'] in ('copy', 'move'):
+        return _array_literal_of(fd, rv['op'], depth + 1)
+    if rv['k'] in ('ref', 'rawptr'):
+        return _array_literal_of(fd, {'k': 'copy', 'pl': rv['pl']}, depth + 1)
+    return None
+
+
 class Frame:
     def __init__(self, eng, path, parent=None, call=None):
         self.eng = eng
@@ -311,6 +330,62 @@ def _classify_value(eng, fd, pl, bi, line, depth, payload=False):
                                  args=[it])
                         g.param = r0
                         return g
+        # `opt.map_or(false, bool::from)` / `.map_or(false, Into::into)`: the boolean is what the Option holds
+        if callee.endswith(('Option::<T>::map_or', 'Option::<T>::is_some_and')) and len(x['args']) == 3 and x['args'][2].get('k') == 'const' \
+                and (x['args'][2].get('fn') or '').endswith(('From::from', 'Into::into')) and x['args'][0]['k'] in ('copy', 'move') and depth < 10:
+            return _classify_value(eng, fd, x['args'][0]['pl'], bi, line, depth + 1)
+        # `items.map(|p| test(p)).reduce(|a, c| a | c)` (or fold): a disjunction (|, ||) of per-item tests is `any`, a conjunction (&, &&) is `all`
+        if callee in ('std::iter::Iterator::reduce', 'std::iter::Iterator::fold') and x['args'] and x['args'][0]['k'] in ('copy', 'move') \
+                and not x['args'][0]['pl'].get('p') and x['args'][-1]['k'] in ('copy', 'move') and not x['args'][-1]['pl'].get('p') and depth < 10:
+            cmb = fd._closure_info(x['args'][-1]['pl']['l'])
+            dm = fd.defs.get(x['args'][0]['pl']['l'], [])
+            q = None
+            if cmb is not None and cmb[0] in eng.prog.bodies:
+                ops_ = [(t2.get('callee') or '') for _b, t2 in eng.prog.bodies[cmb[0]].calls()]
+                bins = [s2['rv']['op'] for _b, s2 in eng.prog.bodies[cmb[0]].stmts() if s2['k'] == 'assign' and s2['rv']['k'] == 'binop']
+                if (ops_ == ['std::ops::BitOr::bitor'] and not bins) or (not ops_ and bins == ['BitOr']):
+                    q = 'std::iter::Iterator::any'
+                elif (ops_ == ['std::ops::BitAnd::bitand'] and not bins) or (not ops_ and bins == ['BitAnd']):
+                    q = 'std::iter::Iterator::all'
+            if q is not None and len(dm) == 1 and dm[0][0] == 'call' and (dm[0][2].get('callee') or '') == 'std::iter::Iterator::map' and len(dm[0][2]['args']) == 2 \
+                    and dm[0][2]['args'][1]['k'] in ('copy', 'move') and not dm[0][2]['args'][1]['pl'].get('p'):
+                m = dm[0][2]
+                ci = fd._closure_info(m['args'][1]['pl']['l'])
+                cfd = eng.fndep(ci[0]) if ci is not None else None
+                if cfd is not None:
+                    per, _m = fd._arg_atoms_and_muts(m['args'])
+                    whole = Gate('call', q, list(per), body.path, bi, x.get('line', line), callee=q, args=m['args'])
+                    subs = [whole]
+                    elem = fd.read_op(m['args'][0])
+                    stack = [_classify_value(eng, cfd, {'l': 0}, bi, line, depth + 1)]
+                    while stack:
+                        g2 = stack.pop()
+                        if g2.kind == 'multi':
+                            stack.extend(g2.args or [])
+                            continue
+                        if g2.kind in ('opaque',):
+                            continue
+                        ops2 = []
+                        for o in g2.operands:
+                            oo = set()
+                            for a in o:
+                                st = strip(a)
+                                if st[0] == 'p' and st[1] == 1:
+                                    k = st[2][0] if st[2] else None
+                                    if k is not None and str(k).isdigit() and int(k) < len(ci[1]):
+                                        oo |= fd.read_op(ci[1][int(k)])
+                                elif st[0] == 'p':
+                                    oo |= elem
+                                else:
+                                    oo.add(a)
+                            ops2.append(oo)
+                        ng = Gate(g2.kind if g2.kind not in ('deleg', 'match') else 'call', g2.what if g2.kind != 'match' else (g2.what or 'value'), ops2, g2.fn, bi, line,
+                                  g2.callee, None, None, g2.const_ops)
+                        ng.quant = q
+                        subs.append(ng)
+                    g = Gate('multi', 'quantified:' + q.split('::')[-1], [whole.all_atoms()], body.path, bi, line)
+                    g.args = subs
+                    return g
         # quantified predicates over an iteration: besides the call itself (whose polarity the quantifier rules read), what the predicate tests
         if callee in ('std::iter::Iterator::any', 'std::iter::Iterator::all', 'std::iter::Iterator::find', 'std::iter::Iterator::position') and len(x['args']) == 2 \
                 and x['args'][1]['k'] in ('copy', 'move') and not x['args'][1]['pl'].get('p') and depth < 10:
@@ -535,6 +610,18 @@ class GateAnalysis:
                         else:
                             lifted.append(s2)
                     continue
+                # an element-wise test over a container parameter whose argument here is an array literal `[a, b, c]`: one test per element
+                if g.quant:
+                    pks = {strip(a)[1] for o in g.operands for a in o if strip(a)[0] == 'p'}
+                    if len(pks) == 1:
+                        k = next(iter(pks))
+                        lit = _array_literal_of(fd, args[k - 1]) if 0 < k <= len(args) else None
+                        if lit:
+                            for eo in lit:
+                                ng = Gate(g.kind, g.what, [set(fd.read_op(eo))], g.fn, g.block, g.line, g.callee, None, g.edge, g.const_ops)
+                                ng.truth, ng.dom, ng.param, ng.quant = g.truth, g.dom and dom, None, g.quant
+                                lifted.append(ng)
+                            continue
                 ops = []
                 for o in g.operands:
                     oo = set()
@@ -545,6 +632,7 @@ class GateAnalysis:
                 ng.truth = g.truth
                 ng.dom = g.dom and dom
                 ng.param = None
+                ng.quant = g.quant
                 lifted.append(ng)
             for e in extra:
                 out.append(lifted + e)
@@ -582,10 +670,23 @@ class GateAnalysis:
                         else:
                             direct.append(g2)
                 else:
-                    gt = Gate('call', extra.get('callee') or '?', [fd.read_op(a) for a in extra['args']],
-                              path, bi, extra.get('line'), callee=extra.get('callee'), args=extra['args'])
-                    gt.dom = True
-                    direct.append(gt)
+                    # the value of a library call returned as it is (`items.map(test).reduce(|a, c| a | c).map_or(false, bool::from)`): what it is
+                    # computed from; for a predicate the returned boolean is the verdict asked for
+                    g = _classify_value(self.eng, fd, {'l': 0}, bi, extra.get('line'), 0)
+                    if g.kind == 'multi':
+                        g.dom = True
+                        if fd.body.local_ty(0) == 'bool':
+                            g.truth = (not want) if g.negated else want
+                        for g2 in self._flatten(g):
+                            if g2.kind == 'deleg':
+                                delegs.append(g2)
+                            else:
+                                direct.append(g2)
+                    else:
+                        gt = Gate('call', extra.get('callee') or '?', [fd.read_op(a) for a in extra['args']],
+                                  path, bi, extra.get('line'), callee=extra.get('callee'), args=extra['args'])
+                        gt.dom = True
+                        direct.append(gt)
             elif kind == 'boolvar':
                 g = _classify_value(self.eng, fd, extra, bi, None, 0)
                 g.dom = True      # the returned boolean itself
